@@ -41,8 +41,8 @@ INC = {"A": 1, "B": 10, "C": 100, "D": 1000}
 
 
 def setx_violated(ops, impl):
-    """mode setx: brute-force linearizability of the conditional Sets / deletes / reads on one key.
-    A synchronous op occupies one instant, a spawned op the interval [spawn, go]."""
+    """mode setx: brute-force linearizability, per key, of conditional Sets / deletes / reads on "x" and of creating
+    field patches / deletes / reads on "p".  A synchronous op occupies one instant, a spawned op the interval [spawn, go]."""
     import itertools
     calls, open_ = [], {}
     for i, (op, line) in enumerate(zip(ops, impl)):
@@ -51,15 +51,18 @@ def setx_violated(ops, impl):
             return "request hangs at `%s`" % op
         if f[0] in ("seta", "setx") and len(r) == 2:
             calls.append((f[0], int(f[1]), r[1], i, i))
-        elif f[0] == "del" and len(r) == 2:
-            calls.append(("del", 0, r[1], i, i))
+        elif f[0] in ("del", "pdel", "pinc") and len(r) == 2:
+            calls.append((f[0], 0, r[1], i, i))
         elif f[0] == "get" and len(r) == 2:
             calls.append(("get", 0, r[1][2:], i, i))
+        elif f[0] == "pget" and len(r) == 2:
+            calls.append(("pget", 0, r[1][2:], i, i))
         elif f[0] == "spawn":
+            a = int(f[3]) if len(f) > 3 else 0
             if " done " in line:
-                calls.append((f[2], int(f[3]), r[2], i, i))
+                calls.append((f[2], a, r[2], i, i))
             else:
-                open_[f[1]] = (f[2], int(f[3]), i)
+                open_[f[1]] = (f[2], a, i)
         elif f[0] == "go" and f[1] in open_ and " done " in line:
             k, a, i0 = open_.pop(f[1])
             calls.append((k, a, r[2], i0, i))
@@ -70,30 +73,38 @@ def setx_violated(ops, impl):
             return (resp == "WROTE", a) if v is None else (resp == "UNCHANGED", v)
         if k == "setx":
             return (resp == "NOT_FOUND", v) if v is None else (resp == "WROTE", a)
-        if k == "del":
+        if k in ("del", "pdel"):
             return (resp == "NOT_FOUND", None) if v is None else (resp == "DELETED", None)
+        if k == "pinc":
+            return (resp == "CREATED", 1) if v is None else (resp == "PATCHED", v + 1)
         return (resp == ("absent" if v is None else str(v)), v)
 
-    if len(calls) > 8:
-        return None
-    for perm in itertools.permutations(range(len(calls))):
-        ok = True
-        for x in range(len(perm)):
-            for y in range(x + 1, len(perm)):
-                if calls[perm[y]][4] < calls[perm[x]][3]:
-                    ok = False
-        if not ok:
+    for key, kinds in (("x", ("seta", "setx", "del", "get")), ("p", ("pinc", "pdel", "pget"))):
+        cs = [c for c in calls if c[0] in kinds]
+        if len(cs) > 8:
             continue
-        v = None
-        for idx in perm:
-            good, v = apply(calls[idx], v)
-            if not good:
-                ok = False
+        found = False
+        for perm in itertools.permutations(range(len(cs))):
+            ok = True
+            for x in range(len(perm)):
+                for y in range(x + 1, len(perm)):
+                    if cs[perm[y]][4] < cs[perm[x]][3]:
+                        ok = False
+            if not ok:
+                continue
+            v = None
+            for idx in perm:
+                good, v = apply(cs[idx], v)
+                if not good:
+                    ok = False
+                    break
+            if ok:
+                found = True
                 break
-        if ok:
-            return None
-    return "no serial order of %s explains the responses (conditional Set decided outside the record guard)" % \
-        ["%s(%s)->%s" % (c[0], c[1], c[2]) for c in calls]
+        if not found:
+            return "no serial order of %s on key %s explains the responses (a decision was taken outside the record guard)" % \
+                (["%s(%s)->%s" % (c[0], c[1], c[2]) for c in cs], key)
+    return None
 
 
 def spec_violated(rep):
@@ -144,7 +155,7 @@ def run(ctx):
     K.lean_verdict(ctx)
     corrs = []
     if K.build_hx(ctx) and K.build_drv(ctx):
-        args = ["%s=%s" % (k, facts.get(k, "unknown")) for k in ("resetsIdOnEmpty", "releasesGuardWhenImmediate", "rechecksObjectUnderGuard", "setTestsExistenceUnderGuard")]
+        args = ["%s=%s" % (k, facts.get(k, "unknown")) for k in ("resetsIdOnEmpty", "releasesGuardWhenImmediate", "rechecksObjectUnderGuard", "setTestsExistenceUnderGuard", "bodyShape")]
         c = K.correspondence(ctx, "C09", args, timeout=900)
         corrs.append(("C09", args, c))
     else:
